@@ -216,6 +216,23 @@ def run_model():
     return out
 
 
+
+
+def corpus_rows():
+    p = os.path.join(vf.VERIF, 'corpus', 'C02', 'past_failures.json')
+    return json.load(open(p)) if os.path.exists(p) else []
+
+def coqchk(ctx):
+    """thorough tier: re-check the compiled closure of Properties/C02.vo with the independent checker and copy its summary"""
+    with vf.Lock('coq'):
+        rc, so, se = vf.sh('timeout 1200 coqchk -o -silent -R theories FEC FEC.Properties.C02', cwd=vf.COQ, timeout=1260)
+    summary = so[so.find('CONTEXT SUMMARY'):] if 'CONTEXT SUMMARY' in so else (so + se)[-800:]
+    ax = re.search(r'\* Axioms:(.*?)\n\s*\n', summary, re.S)
+    ok = rc == 0 and ax is not None and ax.group(1).strip() == '<none>'
+    ctx.obligation('coqchk -o re-checks the closure of Properties/C02.vo; axioms: %s' % (ax.group(1).strip() if ax else '?'), ok, 'coqchk', ' '.join(summary.split())[:600])
+    if not ok:
+        ctx.broken_proof('coqchk does not accept the compiled development or reports axioms')
+
 def run(ctx):
     patterns = 8 if ctx.thorough else 3
     try:
@@ -225,10 +242,15 @@ def run(ctx):
     ctx.log('tables: %d structs, probe %s' % (len(r['layouts']), 'cached' if r['probe_cached'] else 'fresh'))
     if not ctx.coq():
         ctx.broken_proof()
+    elif ctx.thorough:
+        coqchk(ctx)
     model = run_model()
     spec = spec_diff(r)
     # a struct without counterpart shows in the model as an empty probe row (size mismatch etc.); name it once
     unmatched = {n for n, _ in r['unmatched']}
+    for row in corpus_rows():       # rows that failed in the past: re-evaluated first, reported like any other row
+        again = any((s[0], s[1], s[2], s[3]) == tuple(row.get(k) for k in ('table','kind','struct','member')) for s in spec)
+        ctx.count('corpus row ' + ('mismatching again' if again else 'agrees now'))
     spec_keys = {s[:6] for s in spec if s[1] != 'no-python-counterpart' and s[2] not in unmatched}
     model_keys = {m for m in model if m[2] not in unmatched}
     for table, kind, struct, member, a, b, text, case in spec:
